@@ -52,7 +52,7 @@ LEVEL_NOTE = ('Trusted: the library\'s inner products (pinned by C02), NumPy '
               'still checked in the weaker form "N = M^T up to the documented '
               'positive frequency-wise constant".')
 DESIGN_REF = 'DESIGN.md section 5, C05'
-BUDGET = {'quick': 5000, 'thorough': 100000}
+BUDGET = {'quick': 8000, 'thorough': 120000}
 K_TOL = 64
 TOLERANCES = {
     'floor': 'every comparison has the absolute floor 1e6 * tiny(float32 or '
